@@ -403,11 +403,11 @@ theorem summandP_len (out : List String) (terms : List TermP) (τ : List Nat) (h
 theorem splitRanks_id (K K1 K0 : String) (rs : List String) (h : K ∉ rs) : splitRanks K K1 K0 rs = rs :=
   splitRanks_of_not_mem K K1 K0 rs h
 
-/-- **the inner equivalence**: splitting the fibers reached and running the inner loops accumulates what the dense inner
-    loops of the unpartitioned Einsum accumulate — for every state the outer loops can hand over -/
-theorem inner_equiv (D : DynSpec) (out : List String) (ranks0 : List (List String)) (H : DynOK D out ranks0)
+/-- **the split at the dense level**: the dense inner loops over the split states accumulate what the dense inner loops of
+    the unpartitioned Einsum accumulate over the states handed over — whatever boundaries the leader's fiber defines -/
+theorem spec_split_equiv (D : DynSpec) (out : List String) (ranks0 : List (List String)) (H : DynOK D out ranks0)
     (st : TermSt) (R : Res D ranks0 st) (τ : List Nat) :
-    sumAt τ (run (lv out D.rs' D.es') (dynStates D [st])) = sumAt τ (spec (lv out D.rsU D.esU) [st]) := by
+    sumAt τ (spec (lv out D.rs' D.es') (dynStates D [st])) = sumAt τ (spec (lv out D.rsU D.esU) [st]) := by
   let g := D.g [st]
   let keep := D.keep [st]
   let e := extOf D.rsU D.esU D.K
@@ -473,20 +473,7 @@ theorem inner_equiv (D : DynSpec) (out : List String) (ranks0 : List (List Strin
   have relS : RelP D.rs' z [splitTermP D.K D.K1 D.K0 g tR] [st'] :=
     ⟨⟨rfl, rfl, opsRelP_S D g keep z ranks0 st.ops R.len R.arity H.nd2 H.sub2⟩, trivial⟩
   have hS := spec_sumF_P out [splitTermP D.K D.K1 D.K0 g tR] D.rs' D.es' [st'] z H.nd' H.len' relS τ
-  -- (iii) the emitted inner nest = the dense one
-  have hrun : sumAt τ (run (lv out D.rs' D.es') [st']) = sumAt τ (spec (lv out D.rs' D.es') [st']) := by
-    apply run_eq_spec_times
-    · intro s hs
-      simp at hs; subst hs
-      exact Or.inl R.kind
-    · exact levelWF_single _ _
-    · apply ext_of_opBounded
-      intro s hs o ho
-      simp at hs; subst hs
-      rw [lv_snd out D.rs' D.es' H.len']
-      exact opsBounded_S D g keep H.ndU H.lenU H.nd' H.len' (by rw [H.extK1]; exact hg) H.extK0 ranks0 st.ops
-        R.sched R.arity R.bounded H.conc H.nd2 H.ext2 o ho
-  rw [hdyn, hrun, hS, hU]
+  rw [hdyn, hS, hU]
   -- (iv)-(vii) the sums over the assignments
   have hperm := List.perm_cons_erase H.memK
   have hkeysU : (D.rsU.zip D.esU).map (·.1) = D.rsU := by rw [List.map_fst_zip]; have := H.lenU; omega
@@ -540,5 +527,110 @@ theorem inner_equiv (D : DynSpec) (out : List String) (ranks0 : List (List Strin
     rw [hk, this]
   · rw [sumF_congr _ _ (fun _ => 0) (fun f => summandP_len outc _ τ hτ f), sumF_zero,
         sumF_congr _ _ (fun _ => 0) (fun f => summandP_len outc _ τ hτ f), sumF_zero]
+
+
+theorem zipWith2_length {α β γ : Type} (f : α → β → γ) : ∀ (as : List α) (bs : List β), bs.length = as.length →
+    (zipWith2 f as bs).length = as.length
+  | [], [], _ => rfl
+  | [], _ :: _, h => by simp at h
+  | _ :: _, [], h => by simp at h
+  | a :: as, b :: bs, h => by simp [zipWith2, zipWith2_length f as bs (by simpa using h)]
+
+/-- the state the split hands to the inner loops: scheduled for them, points of the right arity, inside the extents -/
+theorem split_state (D : DynSpec) (out : List String) (ranks0 : List (List String)) (H : DynOK D out ranks0)
+    (st : TermSt) (R : Res D ranks0 st) :
+    ∃ st', dynStates D [st] = [st'] ∧ st'.kind = .times ∧ st'.ops.length = ranks0.length ∧
+      (∀ (i : Nat) (aR : List String) (o' : Operand), ranks0[i]? = some aR → st'.ops[i]? = some o' →
+        o'.sched = schedOf D.rs' (splitRanks D.K D.K1 D.K0 aR) ∧
+        ∀ p ∈ o'.pts, p.1.length = (concord D.rs' (splitRanks D.K D.K1 D.K0 aR)).length) ∧
+      ∀ o' ∈ st'.ops, OpBounded D.es' o' := by
+  let g := D.g [st]
+  let keep := D.keep [st]
+  let e := extOf D.rsU D.esU D.K
+  let st' : TermSt := { st with ops := zipWith2 (dynOperand D g keep) ranks0 st.ops }
+  have hdyn : dynStates D [st] = [st'] := by
+    simp only [dynStates, H.ranks_eq, zipWith2]
+    rfl
+  obtain ⟨aL, haL, hKL⟩ := H.lead
+  have hiL : D.leadO < st.ops.length := by
+    rw [R.len]
+    exact (List.getElem?_eq_some_iff.1 haL).1
+  let oL := st.ops[D.leadO]
+  have hoL : st.ops[D.leadO]? = some oL := List.getElem?_eq_getElem hiL
+  have haLm : aL ∈ ranks0 := List.mem_of_getElem? haL
+  have hLh : aL.head? = some D.K := H.headK aL haLm hKL
+  have hbs : D.bs [st] = bounds D.n (heads oL.pts) := by
+    simp [DynSpec.bs, H.leadT0, hoL]
+  have hLsched : oL.sched = schedOf D.rsU aL := R.sched D.leadO aL oL haL hoL
+  have hheads : ∀ c ∈ heads oL.pts, c < e := by
+    intro c hc
+    obtain ⟨tl, v, hm⟩ := mem_heads.1 hc
+    have hb := R.bounded oL (List.getElem_mem hiL) (c :: tl, v) hm
+    rw [hLsched, bnds_schedOf aL D.rsU D.esU H.ndU H.lenU, H.conc aL haLm] at hb
+    cases aL with
+    | nil => simp at hLh
+    | cons a rest =>
+      simp at hLh; subst hLh
+      exact hb.1
+  have hg : ∀ k, k < e → g k < e := by
+    intro k hk
+    show (maxLe (D.bs [st]) k).getD 0 < e
+    cases hm : maxLe (D.bs [st]) k with
+    | none => simp; omega
+    | some m =>
+      simp only [Option.getD_some]
+      have := (maxLe_some hm).1
+      rw [hbs] at this
+      exact hheads m (bounds_subset D.n _ m this)
+  refine ⟨st', hdyn, R.kind, ?_, ?_, ?_⟩
+  · exact zipWith2_length _ ranks0 st.ops R.len
+  · intro i aR o' h1 h2
+    obtain ⟨aR2, o, ha, ho, rfl⟩ := zipWith2_index (dynOperand D g keep) ranks0 st.ops i o' h2
+    rw [h1] at ha
+    simp at ha; subst ha
+    refine ⟨rfl, ?_⟩
+    intro p hp
+    simp only [dynOperand, List.mem_map] at hp
+    obtain ⟨q, _, rfl⟩ := hp
+    simp [reorder]
+  · exact opsBounded_S D g keep H.ndU H.lenU H.nd' H.len' (by rw [H.extK1]; exact hg) H.extK0 ranks0 st.ops
+      R.sched R.arity R.bounded H.conc H.nd2 H.ext2
+
+/-- **the inner equivalence**, for any inner computation `kin` that agrees with the dense inner loops on the states the
+    split can produce (the emitted inner loops; or further loops with a further split inside) -/
+theorem inner_equiv_gen (D : DynSpec) (out : List String) (ranks0 : List (List String)) (H : DynOK D out ranks0)
+    (kin : List TermSt → List (List Nat × Int))
+    (hkin : ∀ st', st'.kind = .times → st'.ops.length = ranks0.length →
+      (∀ (i : Nat) (aR : List String) (o' : Operand), ranks0[i]? = some aR → st'.ops[i]? = some o' →
+        o'.sched = schedOf D.rs' (splitRanks D.K D.K1 D.K0 aR) ∧
+        ∀ p ∈ o'.pts, p.1.length = (concord D.rs' (splitRanks D.K D.K1 D.K0 aR)).length) →
+      (∀ o' ∈ st'.ops, OpBounded D.es' o') →
+      ∀ τ, sumAt τ (kin [st']) = sumAt τ (spec (lv out D.rs' D.es') [st']))
+    (st : TermSt) (R : Res D ranks0 st) (τ : List Nat) :
+    sumAt τ (kin (dynStates D [st])) = sumAt τ (spec (lv out D.rsU D.esU) [st]) := by
+  obtain ⟨st', hdyn, hk, hl, hso, hb⟩ := split_state D out ranks0 H st R
+  rw [← spec_split_equiv D out ranks0 H st R τ, hdyn]
+  exact hkin st' hk hl hso hb τ
+
+/-- the emitted inner loops agree with the dense ones on such states (C01) -/
+theorem run_inner (out : List String) (rs : List String) (es : List Nat) (hlen : es.length = rs.length)
+    (st : TermSt) (hk : st.kind = .times) (hb : ∀ o ∈ st.ops, OpBounded es o) (τ : List Nat) :
+    sumAt τ (run (lv out rs es) [st]) = sumAt τ (spec (lv out rs es) [st]) := by
+  apply run_eq_spec_times
+  · intro s hs
+    simp at hs; subst hs
+    exact Or.inl hk
+  · exact levelWF_single _ _
+  · apply ext_of_opBounded
+    intro s hs o ho
+    simp at hs; subst hs
+    rw [lv_snd out rs es hlen]
+    exact hb o ho
+
+theorem inner_equiv (D : DynSpec) (out : List String) (ranks0 : List (List String)) (H : DynOK D out ranks0)
+    (st : TermSt) (R : Res D ranks0 st) (τ : List Nat) :
+    sumAt τ (run (lv out D.rs' D.es') (dynStates D [st])) = sumAt τ (spec (lv out D.rsU D.esU) [st]) :=
+  inner_equiv_gen D out ranks0 H (run (lv out D.rs' D.es'))
+    (fun st' hk _ _ hb τ => run_inner out D.rs' D.es' H.len' st' hk hb τ) st R τ
 
 end C03
